@@ -195,6 +195,7 @@ class Walker(object):
         self.opaque_paths = set()    # fn paths forced to be effects even if a body exists
         self.stats = {"steps": 0, "paths": 0, "forks": 0}
         self.trace_calls = False     # record ('enter', path) markers
+        self.read_index = {}
         self.call_site_bound = None  # max entries of a local function from the same caller block per path (loops whose
                                      # branching happens inside the callee are not seen by the (fn, block) loop guard)
         self.record_stores = None    # callable(state, frame, loc, value, span) for mod-ref rules
@@ -364,6 +365,7 @@ class Walker(object):
             # may alias: unknown
             return self.symval(tm.fresh_sym("%s[?]" % arr.name, 1).args[0], arr.ety)
         nm = "%s[%s]" % (arr.name, tm.show(idx))
+        self.read_index[nm] = idx      # the index term behind the printed name (rules compare it semantically)
         return self.symval(nm, arr.ety)
 
     def store_to(self, state, obj, proj, value):
